@@ -90,7 +90,8 @@ def run_inspace(case):
     return res
 
 
-BOX_FAULTS = ["len-", "len+", "dim", "low", "high", "nan", "inf", "-inf", "str", "none", "list-of-str", "zeros", "zeros-list"]
+BOX_FAULTS = ["len-", "len+", "dim", "low", "high", "nan", "inf", "-inf", "str", "none", "list-of-str", "zeros", "zeros-list",
+              "dict-foreign", "dict-extra", "scalar"]
 DISCRETE_FAULTS = ["n", "n+k", "-1", "1.5", "nan", "str", "none", "array"]
 
 
@@ -171,6 +172,17 @@ def malformed_action(case):
                 base[idx] = hi + 1.0        # zero is in the space: fall back to an out-of-bounds entry
                 return base
             return np.zeros(n) if f == "zeros" else [0.0] * n
+        if f in ("dict-foreign", "dict-extra"):
+            # a mapping is not a member of a Box; one naming a contract the space does not list least of all
+            from tradingenv.contracts import ETF
+            mid = float(base[idx])
+            if f == "dict-foreign":
+                return {ETF("ZZZ"): mid}
+            m = {"K%d" % i: float(v) for i, v in enumerate(base)}
+            m[ETF("ZZZ")] = mid
+            return m
+        if f == "scalar":
+            return float(base[idx]) if n > 1 else np.array([[float(base[0])]])
         if f == "str":
             return "buy everything"
         if f == "list-of-str":
@@ -181,7 +193,64 @@ def malformed_action(case):
             "array": np.array([0, 1])}[f]
 
 
+def run_malformed_backtest(case):
+    """The same fault, with the actions supplied by a policy through TradingEnv.backtest (the library's own episode loop)."""
+    from tradingenv.policy import AbstractPolicy
+    res = Result()
+    b = E.build(case)
+    tm = E.Timing(b)
+    env = b.env
+    d = case["delay"]
+    jm = case["inject_at"] + 1
+    nsteps = len(tm.steps) - 1
+    kind = case.get("action_type", "array64")
+
+    class Replay(AbstractPolicy):
+        def __init__(self):
+            self.k = 0
+
+        def act(self, state=None):
+            self.k += 1
+            if self.k == jm:
+                return malformed_action(case)
+            acts = case["actions"]
+            return E.to_action(acts[min(self.k, len(acts)) - 1], kind)
+
+    raised = None
+    try:
+        env.backtest(policy=Replay())
+    except Exception as exc:  # noqa
+        raised = exc
+    rec = env.broker.track_record
+    entries = [rec[i] for i in range(len(rec))]
+    for k, entry in enumerate(entries, start=1):
+        src = k - 1 - d
+        if src + 1 == jm:
+            res.fail("the malformed action (%s: %r) returned by the policy at decision %d was executed by backtest at step %d as %s" % (
+                case["fault"], malformed_action(case), jm, k, dict(entry.allocation)))
+            break
+        if src + 1 > jm or src >= len(case["actions"]):
+            break
+        want = O.expected_allocation(b, case["actions"][src]) if src >= 0 else O.null_allocation(b)
+        got = {O.index_of(b, c): float(v) for c, v in entry.allocation.items()}
+        if got != want:
+            res.fail("backtest: execution %d carries allocation %s, expected %s" % (k, got, want))
+            break
+    due_reached = nsteps >= jm + d and len(entries) >= jm + d - 1
+    if raised is None and not res.violations:
+        if len(entries) >= jm + d:
+            res.fail("malformed action (%s: %r) returned by the policy at decision %d (delay %d) was never rejected by backtest (%d executions)" % (
+                case["fault"], malformed_action(case), jm, d, len(entries)))
+        else:
+            res.excluded = "episode-ended-before-the-action-was-due"
+    res.nontrivial = raised is not None and len(entries) >= 1
+    res.tag("fault-" + case["fault"], case["space_kind"], "delay=%d" % d, "through-backtest")
+    return res
+
+
 def run_malformed(case):
+    if case["fault_idx"] % 2 == 1 and not case.get("second_episode"):
+        return run_malformed_backtest(case)
     res = Result()
     b = E.build(case)
     tm = E.Timing(b)
